@@ -18,6 +18,13 @@ fn c08_position_all_or_nothing() {
         ("fen 4k3/8/8/2pP4/8/8/8/4K3 w - c6 0 2", &["d5c6", "e8d8"]),
     ];
     let junk = ["e2e5", "a1a1", "e7e8", "zzzz", "e1g1", "a7a8", "h2h1k", "g1f", "--", "e2", "e2e4e5", "0000"];
+    // `position startpos` loads the position of the standard start FEN
+    {
+        let mut u = Uci::new();
+        cmd(&mut u, "position startpos").unwrap();
+        let want = Board::from_fen("rnbqkbnr/pppppppp/8/8/8/8/PPPPPPPP/RNBQKBNR w KQkq - 0 1");
+        assert!(u.board == want, "C08: `position startpos` does not load the position of the standard start FEN");
+    }
     for pass in 0..2 {
     for (start, moves) in games.iter() {
         // reference: play the moves one by one on a board
